@@ -233,6 +233,17 @@ class SArr(Model):
             return Builtin('ndarray.all', lambda: array_all(I, self))
         if name == 'any':
             return Builtin('ndarray.any', lambda: array_any(I, self))
+        if name in ('max', 'min'):
+            def mx(**kw):
+                hook = I.hooks.get('array_' + name)
+                if hook is not None:
+                    r = hook(self)
+                    if r is not None:
+                        return r
+                if isinstance(self.length, int):
+                    return I.builtins[name].fn([self.at(i) for i in range(self.length)])
+                raise Unsupported(f'ndarray.{name} of a symbolic-length array (no bound supplied by the contract)')
+            return Builtin('ndarray.' + name, mx)
         if name == 'astype':
             return Builtin('ndarray.astype', lambda t, **k: self)
         if name == 'tolist':
